@@ -64,7 +64,23 @@ def run(ck):
                        '%s(mem[7]%s) yields %s, expected %s' % (macro, ', 7' if macro != 'BYTE_CHUNKS' else '', f, w))
     except Exception as e:
         ck.broken('C18.a', 'macros', 'include/ufw/byte-buffer.h', 'probe failed: %s' % str(e)[:200])
-    eng = sym.Engine(u, sizeof=sym.unit_sizeofs(UNIT, u))
+    # the operations are analysed one by one; where one is written in terms of another small one of this unit (avail, rest,
+    # reset, repeat, ... - no calls, no loops of their own), that one is looked into
+    small = set()
+    for nm in u.functions_in_file('byte-buffer.c'):
+        kinds = {cast.kind(x) for x in cast.walk(u.body(nm))}
+        if not (kinds & {'CallExpr', 'WhileStmt', 'ForStmt', 'DoStmt', 'GotoStmt'}):
+            small.add(nm)
+    for _ in range(3):                      # ... and those that only call such ones
+        for nm in u.functions_in_file('byte-buffer.c'):
+            b_ = u.body(nm)
+            if nm in small or {cast.kind(x) for x in cast.walk(b_)} & {'WhileStmt', 'ForStmt', 'DoStmt', 'GotoStmt'}:
+                continue
+            callees = [cast.callee_name(c) for c in cast.calls_in(b_)]
+            if callees and all(c in small and c != nm for c in callees):
+                small.add(nm)
+    small.discard('byte_buffer_set')        # C18.a is about who calls it with what
+    eng = sym.Engine(u, sizeof=sym.unit_sizeofs(UNIT, u), inline=small)
     names = [n for n in u.functions_in_file('byte-buffer.c') if n.startswith('byte_buffer_')]
     ck.floor('C18.c', 'byte_buffer_* functions', len(names), 13)
     allpaths = {}
